@@ -522,6 +522,9 @@ pub fn worker_loop(prop: &dyn Property, a: &WorkerArgs) -> WorkerStats {
                 if d.starts_with("harness") && st.harness_errors.len() < 5 {
                     st.harness_errors.push(format!("workload {} schedule {}: {}", idx, j, d));
                 }
+                if std::env::var("VERIF_DEBUG_DISCARD").is_ok() {
+                    eprintln!("DISCARDED workload {} schedule {}: {}", idx, j, d);
+                }
                 st.discarded += 1;
                 *st.discarded_reasons.entry(d.clone()).or_insert(0) += 1;
             } else {
